@@ -352,7 +352,7 @@ def main():
     # ------------------------------------------------------------------ 1. plain sequences
     seq_jobs = []       # (label, seq)
     alphabets = [[0, 1, -1, 2], [0, 255, -255, 128], [3, -7, 100, -100]]
-    for _ in range(1 if not ck.thorough else 12):
+    for _ in range(1 if not ck.thorough else 24):
         alphabets.append(rng.sample(range(-255, 256), 4))
         alphabets.append([0] + rng.sample(range(-255, 256), 3))
     for al in alphabets:
@@ -467,7 +467,7 @@ def main():
                         t += 1
     n_tuples = t
     # small volumes with injective values through every tuple class, all dtypes the wrapper takes
-    for _ in range(60 if not ck.thorough else 600):
+    for _ in range(60 if not ck.thorough else 1500):
         acc = rng.choice(accs)
         kind = rng.choice(["df", "pk", "dw"])
         od, kh, kw = rng.randint(1, 20), rng.randint(1, 5), rng.randint(1, 5)
